@@ -758,18 +758,31 @@ class HandlerGen:
         elif kind in ("with", "down"):
             i = self.off(self.nlocals)
             pre = self.expr(1) + bytes([0x52, i])
-            head = Frag(bytes([0x4C, i])) + self.expr(1) + bytes([0x0D if kind == "with" else 0x11])
-            tail = Frag(bytes([0x41, 0x01 if kind == "with" else 0xFF, 0x4C, i, 0x05, 0x52, i]))
+            # now and then a step other than +-1 or a comparison that does not fit the step (F134, F135): stays a repeat while
+            cmp_op = 0x0D if kind == "with" else 0x11
+            step = 0x01 if kind == "with" else 0xFF
+            if self.r.random() < 0.2:
+                cmp_op = self.r.choice([0x0C, 0x0D, 0x0E, 0x0F, 0x10, 0x11])
+            if self.r.random() < 0.15:
+                step = self.r.choice([0x01, 0xFF, 0x02, 0xFE, 0x00, 0x07])
+            head = Frag(bytes([0x4C, i])) + self.expr(1) + bytes([cmp_op])
+            tail = Frag(bytes([0x41, step, 0x4C, i, 0x05, 0x52, i]))
+            if self.r.random() < 0.05:       # the step is not a constant
+                tail = self.expr(1) + bytes([0x4C, i, 0x05, 0x52, i])
         elif kind == "withglobal":
             g = self.nm()
             pre = self.expr(1) + bytes([0x4F, g])
-            head = Frag(bytes([0x49, g])) + self.expr(1) + bytes([0x0D])
-            tail = Frag(bytes([0x41, 0x01, 0x49, g, 0x05, 0x4F, g]))
+            cmp_op = self.r.choice([0x0C, 0x0D, 0x0E, 0x0F, 0x10, 0x11]) if self.r.random() < 0.2 else 0x0D
+            step = self.r.choice([0x01, 0xFF, 0x02, 0xFE]) if self.r.random() < 0.15 else 0x01
+            head = Frag(bytes([0x49, g])) + self.expr(1) + bytes([cmp_op])
+            tail = Frag(bytes([0x41, step, 0x49, g, 0x05, 0x4F, g]))
         else:
             i = self.off(self.nlocals)
             pre = self.expr(1) + bytes([0x64, 0x00, 0x43, 0x01, 0x57, self.nm(b"count"), 0x41, 0x01])
             head = Frag(bytes([0x64, 0x00, 0x64, 0x02, 0x0D]))
-            body = Frag(bytes([0x64, 0x02, 0x64, 0x01, 0x43, 0x02, 0x57, self.nm(b"getAt"), 0x52, i])) + body
+            # the getAt index is the peeked counter; now and then a separately pushed constant (F136): stays a repeat while
+            idx_push = bytes([0x64, 0x01]) if self.r.random() > 0.12 else bytes([0x41, self.r.choice([0x01, 0x01, 0x02])])
+            body = Frag(bytes([0x64, 0x02]) + idx_push + bytes([0x43, 0x02, 0x57, self.nm(b"getAt"), 0x52, i])) + body
             tail = Frag(bytes([0x41, 0x01, 0x05]))
         inner = head + bytes([0x95]) + (3 + len(body) + len(tail) + 2).to_bytes(2, "big") + body + tail
         dist = len(inner)
